@@ -1,18 +1,19 @@
-(* Model of transformers/transformer.py: str_location - how a source location (begin and end position: file, line, column) is rendered in a
-   diagnostic.  Hand-written after the source (the flags `dash` and `eq` are kept as they are there); tied to it by the correspondence of C11
-   (all pairs of positions over a small domain and random ones, rendered by the function of /repo and by this one). *)
+(* transformers/transformer.py: str_location - how a source location (begin and end position: file, line, column) is rendered in a diagnostic.
+   The function itself is REGENERATED from the source on every run (Gen/FromLoc.v: str_location_gen, the statements of the Python function with
+   its flags `ret`, `dash`, `eq` turned into a chain of lets); here it is only applied to positions.  In addition the function of /repo and this
+   one are run on all pairs of positions over a small domain and on random ones (C11). *)
 From Coq Require Import List Bool Arith.
 Import ListNotations.
+Require Import GenPrelude FromLoc.
 Record pos := { pfile : nat; pline : nat; pcol : nat }.
-Inductive tok := TFile (f : nat) | TNum (n : nat) | TColon | TDash.
-Definition sep (dash : bool) : tok := if dash then TDash else TColon.
-Definition str_location (b e : pos) : list tok :=
-  let ret := [TFile (pfile b); TColon; TNum (pline b); TColon; TNum (pcol b)] in
-  let dash := true in
-  let eq := pfile b =? pfile e in
-  let '(ret, dash) := if negb eq then (ret ++ [sep dash; TFile (pfile e)], false) else (ret, dash) in
-  let eq := eq && (pline b =? pline e) in
-  let '(ret, dash) := if negb eq then (ret ++ [sep dash; TNum (pline e)], false) else (ret, dash) in
-  let eq := eq && (pcol b =? pcol e) in
-  let '(ret, dash) := if negb eq then (ret ++ [sep dash; TNum (pcol e)], false) else (ret, dash) in
-  ret.
+Notation tok := ltok.
+Definition str_location (b e : pos) : list tok := str_location_gen (pfile b) (pline b) (pcol b) (pfile e) (pline e) (pcol e).
+(* the documented loc_shape, written from the description of the format (file:line:column, then the part of the end position from the first component that
+   differs on): the reference the function of /repo is compared with on every run; Proofs/LocProofs.v proves the regenerated function equal to it *)
+Definition head_of (b : pos) : list tok := [LFile (pfile b); LColon; LNum (pline b); LColon; LNum (pcol b)].
+Definition loc_shape (b e : pos) : list tok :=
+  head_of b ++
+  (if negb (pfile b =? pfile e) then [LDash; LFile (pfile e); LColon; LNum (pline e); LColon; LNum (pcol e)]
+   else if negb (pline b =? pline e) then [LDash; LNum (pline e); LColon; LNum (pcol e)]
+   else if negb (pcol b =? pcol e) then [LDash; LNum (pcol e)]
+   else []).
